@@ -222,7 +222,7 @@ const FNAMES: &[&str] = &["f", "g", "x1", "VALUE", "f_1", "RED"];
 const MNAMES: &[&str] = &["m", "run", "get", "<init>", "lambda$0", "value", "clone"];
 const BAD_DESCS: &[&str] = &["L;", "(La/A", "La/A", "[L;", "(L;)V"];
 
-struct Pool { bad: bool }
+struct Pool { bad: bool, clean: bool }
 impl Pool {
 	fn cls(&self, r: &mut Rng) -> JavaString { js(*r.pick(CLASSES)) }
 	fn ty(&self, r: &mut Rng) -> String {
@@ -272,7 +272,7 @@ impl Pool {
 		Annotation { annotation_type: fd(&self.fdesc(r)), element_value_pairs: (0..r.below(3)).map(|_| ElementValuePair { name: js(*r.pick(MNAMES)), value: self.ev(r, depth) }).collect() }
 	}
 	fn anns(&self, r: &mut Rng) -> Vec<Annotation> { if r.chance(1, 3) { (0..r.range(1, 2)).map(|_| self.ann(r, 0)).collect() } else { vec![] } }
-	fn attrs(&self, r: &mut Rng) -> Vec<Attribute> { if r.chance(1, 8) { vec![Attribute { name: js("Unknown"), bytes: vec![0, r.below(200) as u8] }] } else { vec![] } }
+	fn attrs(&self, r: &mut Rng) -> Vec<Attribute> { if !self.clean && r.chance(1, 6) { vec![Attribute { name: js("Unknown"), bytes: vec![0, r.below(200) as u8] }] } else { vec![] } }
 	fn vt(&self, r: &mut Rng) -> VerificationTypeInfo {
 		match r.below(5) { 0 => VerificationTypeInfo::Top, 1 => VerificationTypeInfo::Integer, 2 => VerificationTypeInfo::Null, _ => VerificationTypeInfo::Object(cn(&self.any(r))) }
 	}
@@ -300,7 +300,7 @@ impl Pool {
 	fn code(&self, r: &mut Rng) -> Code {
 		Code {
 			max_stack: Some(4), max_locals: Some(3),
-			instructions: (0..r.below(7)).map(|_| InstructionListEntry { label: None, frame: if r.chance(1, 4) { Some(self.frame(r)) } else { None }, instruction: self.insn(r) }).collect(),
+			instructions: (0..r.below(7)).map(|_| InstructionListEntry { label: None, frame: if r.chance(1, 3) { Some(self.frame(r)) } else { None }, instruction: self.insn(r) }).collect(),
 			attributes: self.attrs(r), ..Code::default()
 		}
 	}
@@ -309,7 +309,7 @@ impl Pool {
 fn gen_class(seed: u64) -> ClassFile {
 	let mut rng = Rng::new(seed);
 	let r = &mut rng;
-	let p = Pool { bad: r.chance(1, 8) };
+	let p = Pool { bad: r.chance(1, 8), clean: r.chance(3, 5) };
 	let versions = [Version::V1_5, Version::V1_8, Version::V11, Version::V17];
 	let mut c = ClassFile::new(*r.pick(&versions), ClassAccess::from(r.below(0x40) as u16), ocn(&p.cls(r)),
 		if r.chance(4, 5) { Some(ocn(&p.cls(r))) } else { None }, (0..r.below(3)).map(|_| ocn(&p.cls(r))).collect());
@@ -350,15 +350,15 @@ fn gen_class(seed: u64) -> ClassFile {
 	if r.chance(1, 5) { c.nest_host_class = Some(cn(&p.cls(r))); }
 	if r.chance(1, 5) { c.nest_members = Some((0..r.range(1, 2)).map(|_| cn(&p.cls(r))).collect()); }
 	if r.chance(1, 6) { c.permitted_subclasses = Some((0..r.range(1, 2)).map(|_| cn(&p.cls(r))).collect()); }
-	if r.chance(1, 10) { c.record_components = vec![RecordComponent::new(unsafe { duke::tree::record::RecordName::from_inner_unchecked(js("f")) }, fd(&p.fdesc(r)))]; }
-	if r.chance(1, 10) { c.module_main_class = Some(cn(&p.cls(r))); }
+	if !p.clean && r.chance(1, 5) { c.record_components = vec![RecordComponent::new(unsafe { duke::tree::record::RecordName::from_inner_unchecked(js("f")) }, fd(&p.fdesc(r)))]; }
+	if !p.clean && r.chance(1, 5) { c.module_main_class = Some(cn(&p.cls(r))); }
 	c.attributes = p.attrs(r);
 	c
 }
 
 /// hand-built classes for the witnesses of the findings (stable request lines)
 fn fixture(name: &str) -> Option<ClassFile> {
-	let p = Pool { bad: false };
+	let p = Pool { bad: false, clean: true };
 	let mut c = ClassFile::new(Version::V17, ClassAccess::from(0x21), ocn(&js("x/X")), Some(ocn(&js("java/lang/Object"))), vec![]);
 	let bsm = Handle::InvokeStatic(MethodRef { class: cn(&js("java/lang/invoke/LambdaMetafactory")), name: mnm(&js("metafactory")), desc: md(&js("()V")) }, false);
 	let mut m = Method::new(MethodAccess::from(9), mnm(&js("m")), md(&js("()V")));
@@ -461,7 +461,7 @@ fn gen_mappings(r: &mut Rng, classes: &[Cl], stats: &mut fvh::run::Stats) -> GMa
 			3 => Some(match n.rfind('$') { Some(i) => format!("{}$R{}", &n[..i], &n[i + 1..]), None => format!("{n}R") }),
 			4 => Some(format!("deep/er/pkg/{simple}X")),
 			5 => Some(simple.clone() + "_"),                        // default package
-			6 => Some("same/Target".to_owned()),                    // several classes onto one name
+			6 => Some(format!("same/Target{}", r.below(2))),        // several classes onto one name
 			_ => Some(format!("{}Ü", n)),
 		};
 		rows.insert(n.clone(), (dst, vec![], vec![]));
@@ -645,7 +645,9 @@ fn emit_class_ops(r: &mut Rng, out: &mut Out, class: &ClassFile, hint: &Sexp, wi
 	let t = q.t.borrow().to_sexp();
 	out.op("remap-class", &[cs.clone(), maps.clone(), aux.clone(), t.clone()]);
 	out.op("oracle-remap-refs", &[cs.clone(), maps.clone(), aux.clone(), t.clone()]);
-	out.op("oracle-remap-shape", &[cs.clone(), maps, aux, t]);
+	out.op("oracle-remap-shape", &[cs.clone(), maps.clone(), aux.clone(), t.clone()]);
+	out.op("oracle-code-refs", &[cs.clone(), maps.clone(), aux.clone(), t.clone()]);
+	out.op("oracle-code-shape", &[cs.clone(), maps, aux, t]);
 	if with_refs { out.op("refs", &[cs, hint.clone()]); }
 }
 
@@ -690,6 +692,13 @@ fn emit_jar_ops(r: &mut Rng, out: &mut Out, es: &[Ent]) {
 	// entry names that are not the name of a class inside also get renamed sometimes
 	for e in es { if let Some(stem) = e.name.strip_suffix(".class") { if r.chance(1, 3) && !g.classes.iter().any(|c| c.0 == stem) && !stem.is_empty() {
 		g.classes.push((stem.to_owned(), Some(format!("moved/{}", stem.replace('/', "_"))), vec![], vec![])); } } }
+	// two entries onto one target name (the later one replaces the earlier one)
+	let stems: Vec<String> = es.iter().filter_map(|e| e.name.strip_suffix(".class").filter(|s| !s.is_empty()).map(|s| s.to_owned())).collect();
+	if stems.len() >= 2 && r.chance(1, 5) {
+		for st in &stems[..2] {
+			match g.classes.iter_mut().find(|c| c.0 == *st) { Some(c) => c.1 = Some("col/Same".to_owned()), None => g.classes.push((st.clone(), Some("col/Same".to_owned()), vec![], vec![])) }
+		}
+	}
 	let (maps, sup) = (g.mappings_sexp(), g.supers_sexp());
 	build_remapper!(mm, prov, b, &maps, &sup, { out.stats.hit("unbuildable-remapper"); return });
 	let q = Rec::new(&b);
@@ -795,7 +804,7 @@ fn exec(op: &str, args: &[Sexp]) -> Ans {
 	let q = Rec::new(&b);
 	if !tr!(table_consistent(&q, table)) { return Ans::Skip("table differs from the remapper's answers".into()); }
 	match op {
-		"remap-class" | "oracle-remap-refs" | "oracle-remap-shape" | "oracle-full-refs" | "oracle-full-shape" | "oracle-full-names" => {
+		"remap-class" | "oracle-remap-refs" | "oracle-remap-shape" | "oracle-code-refs" | "oracle-code-shape" | "oracle-full-refs" | "oracle-full-shape" | "oracle-full-names" => {
 			let Ok(class) = class_from_hint(hints) else { return Ans::Skip("hint".into()) };
 			let m = project(&class);
 			if class_to_sexp(&m) != *subject { return Ans::Skip("class differs from its hint".into()); }
@@ -813,6 +822,17 @@ fn exec(op: &str, args: &[Sexp]) -> Ans {
 						(Err(_), Some(_)) => Ans::fail("refs"), // failed although every answer was there
 					}
 				}
+				"oracle-code-refs" => {
+					// `remap_refs_code`: on every class, the references of the result are `codeApply` of the references of the stripped input
+					let st = strip(&m);
+					let expected: Option<Vec<Ref>> = refs(&st).iter().map(|r| code_apply(&q, &m.name, r)).collect();
+					match (res, expected) {
+						(Ok(c), Some(e)) => if refs(&project(&c)) == e { Ans::pass() } else { Ans::fail("refs") },
+						(Err(_), None) => Ans::pass(),
+						_ => Ans::fail("refs"),
+					}
+				}
+				"oracle-code-shape" => match res { Err(_) => Ans::out_of_domain(), Ok(c) => if erase(&project(&c)) == erase(&strip(&m)) { Ans::pass() } else { Ans::fail("shape") } },
 				"oracle-full-refs" => {
 					let (_, expected) = ask_class(&q, &m);
 					match (res, expected) {
@@ -943,6 +963,14 @@ fn full_names(maps: &Sexp, old: &Cl, new: &Cl) -> Ans {
 		}
 	}
 	Ans::pass()
+}
+/// the class without what remap.rs drops (mirror of `strip`)
+fn strip(c: &Cl) -> Cl {
+	let mut s = c.clone();
+	s.module = None; s.mpk = None; s.mmc = None; s.rcs.clear(); s.attrs.clear();
+	for f in &mut s.fields { f.attrs.clear(); }
+	for m in &mut s.methods { m.attrs.clear(); if let Some(code) = &mut m.code { code.attrs.clear(); } }
+	s
 }
 /// every answer the code needs for this class is there (the model's remap succeeds)
 fn code_ok<B: BRemapper>(q: &Rec<B>, c: &Cl) -> bool {
